@@ -1,19 +1,27 @@
 """C07 — Channel data arrives complete, in order, once, with EOF last.
 
 Lean: Model/Channel.lean (one endpoint of asyncssh/channel.py SSHChannel), Model/ChannelSys.lean (two endpoints, one
-FIFO link per direction, N channels multiplexed), Model/ChannelCodec.lean (UTF-8 layer); Props/C07.lean
+FIFO link per direction, N channels multiplexed), Model/ChannelCodec.lean (UTF-8 layer), Model/ChannelText.lean
+(encodings whose codec keeps state across writes: the byte order mark family utf-8-sig / utf-16 / utf-32, as byte
+machines over the body codecs UTF-8, UTF-16-LE, UTF-32-LE); Props/C07.lean
 (stream_inv, delivered_is_prefix, eof_only_if_signalled, eof_after_all_data, eof_last, eof_delivered_if_sent,
 eof_delivered_if_signalled, eof_lost_when_close_overtakes_old / eof_not_sent_when_close_overrides_old (witnesses
 for the code before the fixes 024eb80 / d334dad),
-channels_independent_prop, utf8_split_ok, text_delivered_is_text_written, ...).
+channels_independent_prop, utf8_split_ok, text_delivered_is_text_written, text_as_written_every_packetisation,
+text_stream_any_chunking, per_write_encoding_breaks_text (witness), text_codec_objects_in_code (tie to write /
+set_encoding / _deliver_data), ...).
 Correspondence: a real SSHClientConnection / SSHServerConnection pair over the in-memory hub (manual delivery, one
 SSH packet at a time, packet tap), raw SSHClientSession / SSHServerSession callback API, scripted by the seeded PRNG:
 writes of 0..3 windows on stdin/stdout/stderr, write_eof, close, pause/resume, pausing from inside data_received,
 windows and packet sizes down to 1, up to 4 channels, text channels with multi-byte characters cut anywhere, a
 burst arriving before the client started reading; the same script drives lean/Drivers/C07.lean; compared per
 operation: channel messages put on the wire (kind, datatype, size, adjust value), session callbacks (bytes / text),
-API errors, protocol errors.
-Oracle: bytes delivered == bytes written per channel and datatype (order across datatypes included), nothing ever
+API errors, protocol errors.  The text layer separately: the model's incremental encoder / decoder for utf-8-sig,
+utf-16, utf-32, utf-16-le, utf-8 against CPython's `codecs` incremental encoder / decoder on generated write
+sequences (honest, per-write encoded, mark-less, corrupted) in random packetisations, per chunk.
+Oracle: (also: real two-endpoint TEXT sessions in utf-16, utf-32, utf-8-sig, utf-16-le/-be, utf-32-be, latin-1,
+utf-8 errors='replace' — several writes per direction, empty writes between, astral characters, stderr, windows and
+packet sizes down to 1, EOF — text received == text written, failure names encoding and writes) bytes delivered == bytes written per channel and datatype (order across datatypes included), nothing ever
 duplicated or reordered, eof_received iff EOF was sent, once, after all data.
 """
 
@@ -42,11 +50,18 @@ MANIFEST = {
             '(eof_delivered_if_signalled; also when close() follows write_eof() with data still buffered — fix d334dad '
             '— and when CLOSE overtakes the EOF at the receiver — fix 024eb80; the old behaviours are kept as witness '
             'theorems about the old functions); UTF-8 decoding independent of packet boundaries (byte-exact incremental decoder, round trip for every '
-            'scalar value); per-channel projection of a multiplexed run. The model is tied to the code by the translator '
+            'scalar value); the encodings whose codec keeps state across writes (utf-8-sig, utf-16, utf-32; also utf-16-le, '
+            'utf-8 in the same frame): one incremental encoder per channel emits the byte order mark once, one '
+            'incremental decoder consumes it once — for every sequence of writes and every packetisation the text '
+            'delivered is the text written, write by write (text_as_written_every_packetisation), with the witness that '
+            'encoding each write on its own delivers U+FEFF in front of every later write; '
+            'per-channel projection of a multiplexed run. The model is tied to the code by the translator '
             '(send-loop arithmetic from the AST) and by a differential run against two real endpoints driven packet by '
             'packet.',
-    'note': 'session objects use the raw callback API; stream.py is only the consumer; non-UTF-8 codecs are trusted to '
-            'be byte-wise transducers (chunk independence then holds by construction); pause_writing/resume_writing '
+    'note': 'session objects use the raw callback API; stream.py is only the consumer; codecs other than UTF-8, '
+            'UTF-16-LE, UTF-32-LE and their mark-framed forms are not modelled (big-endian forms, 8-bit code pages, error '
+            'handlers other than strict: exercised by the oracle on real text sessions only); CPython codecs are tied '
+            'to the byte machines by the correspondence run, not proved; pause_writing/resume_writing '
             'callbacks and channel requests are not modelled; abort() is not modelled',
     'technique': 'Lean 4 proof (invariants by induction over the event sequence of a two-endpoint transition system) '
                  '+ translator for the integer expressions + differential correspondence on real client/server pairs '
@@ -55,7 +70,8 @@ MANIFEST = {
 LEAN_PROPS = ['AsyncsshModel.Props.C07']
 DRIVER = 'Drivers/C07.lean'
 TRUSTED = ['asyncssh transport below the channel layer (packets arrive intact and in order: C01/C02)',
-           'CPython codecs for encodings other than UTF-8',
+           'CPython codecs (checked against the model for utf-8, utf-8-sig, utf-16, utf-32, utf-16-le by correspondence; '
+           'other encodings only through the text-session oracle)',
            'harness/props/_channel_lib.py: the realisation of delivery events on the in-memory hub']
 ASSUMPTIONS = ['the receiving application has not called close() (after that, undelivered data is discarded by contract)',
                'window and packet sizes < 2^32; fewer than 2^32 bytes per adjust']
@@ -128,6 +144,80 @@ def _py_decode(chunks: List[bytes]) -> str:
     return ' '.join(out)
 
 
+TEXT_CODECS = ['utf-8-sig', 'utf-16', 'utf-32', 'utf-16-le', 'utf-8']
+_TEXT_CPS = [0x41, 0x61, 0x0a, 0x7f, 0x80, 0xe9, 0xff, 0x7ff, 0x800, 0x20ac, 0xd7ff, 0xe000, 0xfeff, 0xfffe, 0xffff,
+             0x10000, 0x1f600, 0x10ffff]
+
+
+def _cut(rng: random.Random, data: bytes) -> List[bytes]:
+    chunks = []
+    while data:
+        k = rng.choice([1, 1, 2, 3, 4, 5, 7, len(data)])
+        chunks.append(data[:k])
+        data = data[k:]
+    if rng.random() < 0.25:
+        chunks.insert(rng.randint(0, len(chunks)), b'')
+    return chunks or [b'']
+
+
+def _text_cases(rng: random.Random, n: int) -> List[Dict[str, Any]]:
+    """write sequences for the stateful text codecs: what ONE incremental encoder / per-write encoding puts on the
+    wire, and what ONE incremental decoder makes of the stream in a random packetisation"""
+    import sys
+    cases = []
+    for _ in range(n):
+        codec = rng.choice(TEXT_CODECS)
+        writes = []
+        for _w in range(rng.randint(0, 5)):
+            r = rng.random()
+            k = 0 if r < 0.25 else rng.randint(1, 2) if r < 0.7 else rng.randint(3, 8)
+            writes.append([rng.choice(_TEXT_CPS + [rng.randrange(0x110000)]) for _c in range(k)])
+        writes = [[cp for cp in w if not 0xd800 <= cp < 0xe000] for w in writes]
+        r = rng.random()
+        kind = 'honest' if r < 0.5 else 'fresh' if r < 0.8 else 'nomark' if r < 0.9 else 'corrupt'
+        strs = [''.join(chr(cp) for cp in w) for w in writes]
+        if kind == 'fresh':
+            per_write = [t.encode(codec) if t else b'' for t in strs]       # the defective variant: `data.encode(encoding)`
+        else:
+            enc = codecs.getincrementalencoder(codec)('strict')
+            per_write = [enc.encode(t) if t else b'' for t in strs]         # `write('')` returns before the encoder
+        stream = b''.join(per_write)
+        if kind == 'nomark':
+            stream = ''.join(strs).encode({'utf-8-sig': 'utf-8', 'utf-16': 'utf-16-le', 'utf-32': 'utf-32-le'}.get(codec, codec))
+        elif kind == 'corrupt' and stream:
+            k = rng.randrange(len(stream))
+            stream = stream[:k] + bytes([rng.choice([0x00, 0xd8, 0xdc, 0xdf, 0xff, 0xfe, 0x80, 0xef, 0xbb, 0x11])]) + \
+                stream[k + rng.choice([0, 1]):]
+        if sys.byteorder != 'little':
+            continue            # CPython's utf-16 / utf-32 encoders use the native order; the model is little endian
+        if (codec == 'utf-16' and stream[:2] == b'\xfe\xff') or (codec == 'utf-32' and stream[:4] == b'\x00\x00\xfe\xff'):
+            continue            # a big-endian mark switches CPython's decoder to big endian: not modelled
+        if codec == 'utf-16' and len(stream) >= 2 and stream[:2] != b'\xff\xfe' and 0xd8 <= stream[1] <= 0xdb:
+            continue            # mark-less and starting with a high surrogate: CPython raises "does not start with BOM"
+            #                     only once the pair is complete (it judges by bytes consumed), the model after 2 bytes
+        cases.append({'codec': codec, 'kind': kind, 'writes': writes, 'per_write': per_write,
+                      'chunks': _cut(rng, stream)})
+    return cases
+
+
+def _py_text_decode(codec: str, chunks: List[bytes]) -> str:
+    dec = codecs.getincrementaldecoder(codec)('strict')
+    out = []
+    for c in chunks:
+        try:
+            t = dec.decode(c)
+        except UnicodeError:        # UnicodeDecodeError, or plain UnicodeError ("stream does not start with BOM")
+            out.append('err')
+            return ' '.join(out)
+        out.append('.'.join(str(ord(ch)) for ch in t) or '-')
+    try:
+        dec.decode(b'', True)
+        out.append('clean')
+    except UnicodeError:
+        out.append('pending')
+    return ' '.join(out)
+
+
 def correspondence(ctx: Ctx) -> CorrResult:
     res = CorrResult()
     hist = Hist()
@@ -152,6 +242,12 @@ def correspondence(ctx: Ctx) -> CorrResult:
     lines += ['dec ' + ' '.join(hx(x) for x in chunks) for chunks in codec]
     e0 = len(lines)
     lines += ['enc ' + ' '.join(str(cp) for cp in cps) if cps else 'enc' for cps in enc]
+    t0 = len(lines)
+    tcases = _text_cases(ctx.subrng('corr:textcodec'), ctx.n(500, 5000))
+    for tc in tcases:
+        ws = ' '.join('.'.join(str(cp) for cp in w) or '-' for w in tc['writes'])
+        lines.append(('tfresh ' if tc['kind'] == 'fresh' else 'tenc ') + tc['codec'] + (' ' + ws if ws else ''))
+        lines.append('tdec ' + tc['codec'] + ' ' + ' '.join(hx(x) or '-' for x in tc['chunks']))
     out = ctx.model(DRIVER, lines)
     for c, (o, n) in zip(cases, index):
         mres = L.model_results(c, out[o:o + n])
@@ -181,14 +277,31 @@ def correspondence(ctx: Ctx) -> CorrResult:
         hist.hit('codec:' + ('error' if 'err' in p else 'ok'))
         if p != m:
             res.disagreements.append(Disagreement({'chunks': [hx(x) for x in chunks]}, m, p, 'correspondence:utf8-decoder'))
-    for cps, m in zip(enc, out[e0:]):
+    for k, tc in enumerate(tcases):
+        res.cases += 1
+        m_enc, m_dec = out[t0 + 2 * k], out[t0 + 2 * k + 1]
+        p_enc = ' '.join(hx(b) or '-' for b in tc['per_write']) or '-'
+        p_dec = _py_text_decode(tc['codec'], tc['chunks'])
+        hist.hit('textcodec:%s:%s' % (tc['codec'], tc['kind']))
+        hist.hit('textcodec-result:' + ('error' if 'err' in p_dec else p_dec.split()[-1]))
+        if sum(1 for w in tc['writes'] if w) >= 2 and len(tc['chunks']) >= 3:
+            res.nontrivial += 1
+        shown = {'codec': tc['codec'], 'kind': tc['kind'], 'writes': tc['writes'], 'chunks': [hx(x) for x in tc['chunks']]}
+        if p_enc != m_enc:
+            res.disagreements.append(Disagreement(shown, m_enc, p_enc, 'correspondence:text-encoder:' + tc['codec']))
+        elif p_dec != m_dec:
+            res.disagreements.append(Disagreement(shown, m_dec, p_dec, 'correspondence:text-decoder:' + tc['codec']))
+    for cps, m in zip(enc, out[e0:t0]):
         res.cases += 1
         p = hx(''.join(chr(cp) for cp in cps).encode('utf-8'))
         if p != m:
             res.disagreements.append(Disagreement({'cps': cps}, m, p, 'correspondence:utf8-encoder'))
     res.histogram = dict(hist)
     res.rule = ('non-trivial channel case = some write larger than the peer window or max packet AND a pause; '
-                'codec cases = random chunkings of valid / corrupted UTF-8')
+                'codec cases = random chunkings of valid / corrupted UTF-8; text codec case (utf-8-sig, utf-16, utf-32, '
+                'utf-16-le, utf-8 against CPython codecs: one incremental encoder over the writes, per-write encoding, '
+                'mark-less and corrupted streams, random packetisation) non-trivial = at least two non-empty writes '
+                'and three chunks')
     return res
 
 
@@ -217,6 +330,29 @@ def f13_cases() -> List[Dict[str, Any]]:
     return [paused, starting, unpaused, nodata, unsent]
 
 
+def text_cases() -> List[Dict[str, Any]]:
+    """directed text sessions in the encodings whose codec keeps state across writes: per direction several
+    non-empty writes with an empty one in between, an astral character, stdout and stderr, small window and
+    packet size, EOF both ways"""
+    out = []
+    for enc in ('utf-16', 'utf-32', 'utf-8-sig', 'utf-16-le', 'latin-1', 'utf-8'):
+        for wa, pa in ((1 << 21, 32768), (5, 3)):
+            def u(t: str) -> str:
+                if enc == 'latin-1':
+                    t = ''.join(c for c in t if ord(c) < 256)
+                return hx(t.encode('utf-8'))
+            cfg = {'wa': wa, 'pa': pa, 'wb': wa, 'pb': pa, 'keepA': True, 'keepB': True, 'pausedA': 'n',
+                   'decA': False, 'decB': False, 'enc': enc, 'errors': 'replace' if enc == 'utf-8' else 'strict'}
+            ops = [['app', 'a', 0, 'write', None, u('one')], ['app', 'a', 0, 'write', None, ''],
+                   ['app', 'a', 0, 'write', None, u('tw\U0001f600 é')], ['deliver', 'b'],
+                   ['app', 'b', 0, 'write', None, u('out-1 ')], ['app', 'b', 0, 'write', 1, u('err-1 €')],
+                   ['deliver', 'a'], ['app', 'b', 0, 'write', None, ''], ['app', 'b', 0, 'write', None, u('out-2\n')],
+                   ['app', 'a', 0, 'write', None, u('three')], ['app', 'b', 0, 'write', 1, u('\ufefferr-2')],
+                   ['app', 'a', 0, 'eof'], ['app', 'b', 0, 'eof']]
+            out.append({'profile': 'textenc', 'chans': [cfg], 'ops': ops})
+    return out
+
+
 def oracle(ctx: Ctx) -> OracleResult:
     res = OracleResult()
     hist = Hist()
@@ -225,8 +361,9 @@ def oracle(ctx: Ctx) -> OracleResult:
         if isinstance(s, dict) and 'case' in s and 'chans' in s['case']:
             todo.append(s['case'])
     todo += f13_cases()
+    todo += text_cases()
     for prof, n in [('stream', ctx.n(160, 2500)), ('tiny', ctx.n(80, 1200)), ('multi', ctx.n(60, 900)),
-                    ('starting', ctx.n(80, 1200))]:
+                    ('starting', ctx.n(80, 1200)), ('textenc', ctx.n(150, 2500))]:
         rng = ctx.subrng('oracle:' + prof)
         todo += [L.gen_case(rng, prof) for _ in range(n)]
     seen = set()
@@ -234,6 +371,8 @@ def oracle(ctx: Ctx) -> OracleResult:
         real = L.run_case(case, drain=True)
         res.evaluations += 1
         hist.hit('profile:' + case.get('profile', '?'))
+        if case['chans'][0].get('enc'):
+            hist.hit('encoding:%s/%s' % (case['chans'][0]['enc'], case['chans'][0].get('errors', 'strict')))
         hist.hit('outcome:' + ('fatal:' + str(real.get('dead')) if real.get('dead') else
                                'drained' if real.get('drained') else 'error' if real.get('error') else 'other'))
         fails = O.check_c07(case, real)
